@@ -1,9 +1,9 @@
 From Coq Require Import ExtrOcamlBasic.
-Require Import Base Tables Utf8 Tree Recog Html Inl3b Driver Inl3e Render Fmt Entry SafeW Stream Props C17chk SpanHypDef ShapeHypDef EmphSpec.
+Require Import Base Tables Utf8 Tree Recog Html Inl3b Driver Inl3e Render Fmt Entry SafeW Stream Props C17chk SpanHypDef ShapeHypDef EmphSpec EmphSpec2.
 Extraction "model.ml" parseBlocks parseFull renderDoc formatDoc renderRoots renderRootsWith formatRoots refsOfRoots
   listItemNumber linkReference isTightList isOrdered bokW
   parseThematicBreak parseATXHeading parseSetextHeadingUnderline parseCodeFence parseListMarker
   normalizeURI isEmailAddress parseEmail filterRaw urlHexDigit
   isSpaceTabOrLineEnding isASCIILetter isASCIIDigit isASCIIPunctuation isASCIIControl isHex toLowerASCII
   isUnquotedAttributeValueChar parseStream
-  validUtf8 chk_C01 chk_C02_root chk_C03_root chk_C05_root chk_C13_root chkRoots entriesOKroots shapeHypRoots okEmph specForest.
+  validUtf8 chk_C01 chk_C02_root chk_C03_root chk_C05_root chk_C13_root chkRoots entriesOKroots shapeHypRoots okEmph specForest okLine2 specForest2 utf8.
